@@ -172,6 +172,8 @@ type PrintOpts struct {
 	Juxt  map[*Node]bool // these AND nodes are written as juxtaposition
 	// ValueParens: redundant parentheses around the value of these eq leaves
 	ValueParens map[*Leaf]bool
+	// ArgParens: redundant parentheses around the numeric argument of these ~ / ^ nodes
+	ArgParens map[*Node]bool
 }
 
 // Tokens prints n as a token list.
@@ -230,13 +232,17 @@ func emitBare(n *Node, o *PrintOpts, out *[]string) {
 	case OFuzzy:
 		emit(n.L, lvFuzzy, o, out, false)
 		*out = append(*out, "~")
-		if n.Arg != "" {
+		if n.Arg != "" && o.ArgParens[n] {
+			*out = append(*out, "(", n.Arg, ")")
+		} else if n.Arg != "" {
 			*out = append(*out, n.Arg)
 		}
 	case OBoost:
 		emit(n.L, lvBoost, o, out, false)
 		*out = append(*out, "^")
-		if n.Arg != "" {
+		if n.Arg != "" && o.ArgParens[n] {
+			*out = append(*out, "(", n.Arg, ")")
+		} else if n.Arg != "" {
 			*out = append(*out, n.Arg)
 		}
 	default:
